@@ -28,9 +28,9 @@ SPEC = {
         # long streams: continuity index wraps, several faults far apart, reset() mid-stream, callbacks returning
         # FALSE, frames with several packets of the stream, two contexts on one multiplex
         {"name": "idl_long", "harness": "c15_idl_pfc", "srcs": _SRCS, "flavour": "asan", "mode": "idl-long",
-         "cases": {"quick": 16000, "thorough": 320000}, "budget": 20},
+         "cases": {"quick": 16000, "thorough": 240000}, "budget": 20},
         {"name": "pfc_long", "harness": "c15_idl_pfc", "srcs": _SRCS, "flavour": "asan", "mode": "pfc-long",
-         "cases": {"quick": 24000, "thorough": 480000}, "budget": 20},
+         "cases": {"quick": 24000, "thorough": 400000}, "budget": 20},
     ],
     "min_distinct": 300,
     "min_counters": {
